@@ -29,8 +29,7 @@ RULE = ("[dev] every (P,S) pair x every combination of <=D dimensions off defaul
         "S.radius_effective dispersity, S parameters, P sizes, volfraction, user radius_effective, 2-D, jitter, magnetic P); "
         "[mesh] P meshes of 101, 132, 11x11, 12x11 points x every effective-radius mode x (1-D, 1-D beta, 2-D); "
         "[mixed] every pure-Python P x 4 S built with dtype='single' (P double, S single), default + each single deviation, "
-        "judged by the usual recombination with the single-precision S evaluated alone (finite wherever that is) and "
-        "bounded against the double build by MIXED_RTOL[S]; "
+        "judged by the usual recombination with the single-precision S evaluated alone (finite wherever that is); "
         "[reuse] one kernel object evaluated for A then B, B differing in exactly one setting, both orders; "
         "non-trivial = S(q) differs from 1 by >1e-6 at some q and the result is finite")
 ASSUMPTIONS = [
@@ -305,11 +304,11 @@ def run_case(case, ctx):
                   reuse=(case["change"], "same kernel object evaluated first with non-default pars=%s, then: " % shown))
 
 
-# 10 x the worst relative difference between the dtype='single' and the double build of the same P@S measured on the
-# reference tree over seeds 0-2 (hardsphere 4.0e-5, hayter_msa 0.33 [single-precision hayter_msa alone is that far from
-# double at q=0.003], squarewell 4.7e-3, stickyhardsphere 3.5e-6).  The sharp check is the recombination with the
-# SINGLE-precision S evaluated alone; this table only bounds the distance to the double build.
-MIXED_RTOL = {"hardsphere": 4e-4, "hayter_msa": 3.4, "squarewell": 5e-2, "stickyhardsphere": 3.5e-5}
+# The distance between the dtype='single' build and the double build is NOT judged: single-precision structure
+# factors are ill-conditioned at low q (squarewell at q=0.003 differs from its double twin by 5 %...40 % depending on
+# radius_effective; an empirical bound measured on seeds 0-2 raised a false alarm at seeds 6 and 7) and the statement
+# says nothing about precision.  The oracle is the recombination of P alone (double) with the SINGLE-precision S
+# evaluated alone, which is sharp whatever the conditioning of S.
 _SINGLE = {}
 
 
@@ -341,13 +340,6 @@ def _judge_mixed(r, pname, sname, cfg):
     desc = ("load_model(%r, dtype='single') [P %s, S %s]; " % (expr, p_dtype, s_dtype)) + st["desc"]
     fk = {"model": expr, "clause": "mixed-precision"}
     br = ["mixed-precision", "mixed-precision:" + sname]
-    both = np.isfinite(double) & np.isfinite(single)
-    tol = MIXED_RTOL[sname]
-    with np.errstate(all="ignore"):
-        rel = np.abs(single - double) / np.abs(double)
-    if np.any(both & ~(rel <= tol)):
-        return r.fail("%s\n  single build=%s\n  double build=%s\n  relative difference %s > %g"
-                      % (desc, single, double, rel, tol), fk, branches=br)
     r.branches.update(br)
     # sharp: P alone (double) recombined with the single-precision S alone; finite wherever that reference is finite
     return _judge(r, pname, sname, cfg, single=True)
